@@ -227,7 +227,7 @@ func TestC08(t *testing.T) {
 	r.Assume("WhoIs answers keep Node and UserProfile non-nil (as tailscaled does)",
 		"bodies the property does not classify (null, {}, unknown extra fields, field names in another case, a JSON value followed by trailing garbage) are grey: either a 4xx without side effects or the mapping for the decoded request is accepted")
 	dir := evid.TempDir(t)
-	nStates := r.N(2, 6)
+	nStates := r.N(2, 5)
 	for stIdx := 0; stIdx < nStates; stIdx++ {
 		runState(t, r, dir, stIdx)
 	}
@@ -473,7 +473,7 @@ func runState(t *testing.T, r *evid.Run, dir string, stIdx int) {
 							if bh != "setec" {
 								viol++
 							}
-							if viol >= 2 && rng.IntN(r.N(12, 2)) != 0 {
+							if viol >= 2 && rng.IntN(r.N(12, 4)) != 0 {
 								continue
 							}
 							one(req{Endpoint: ep, Method: me, CType: ct, Browser: bh, Who: wk, Body: bk, Op: genOp(ep)})
@@ -484,7 +484,7 @@ func runState(t *testing.T, r *evid.Run, dir string, stIdx int) {
 		}
 	}
 	// the other endpoints: seeded sample biased to at most one violated gate
-	for i, n := 0, r.N(6000, 60000); i < n; i++ {
+	for i, n := 0, r.N(6000, 30000); i < n; i++ {
 		ep := endpoints[2+rng.IntN(5)]
 		q := req{Endpoint: ep, Method: "POST", CType: "application/json", Browser: "setec", Who: whoKinds[rng.IntN(len(whoKinds))], Body: bodyKinds[rng.IntN(len(bodyKinds))], Op: genOp(ep)}
 		switch rng.IntN(8) {
@@ -500,7 +500,7 @@ func runState(t *testing.T, r *evid.Run, dir string, stIdx int) {
 		one(q)
 	}
 	// well-formed requests from every kind of identified caller
-	for i, n := 0, r.N(3000, 30000); i < n; i++ {
+	for i, n := 0, r.N(3000, 20000); i < n; i++ {
 		ep := endpoints[rng.IntN(len(endpoints))]
 		one(req{Endpoint: ep, Method: "POST", CType: "application/json", Browser: "setec", Body: "valid", Op: genOp(ep),
 			Who: []string{"user", "tagged", "restricted", "https-cap", "both-caps", "empty-grants", "no-caps", "plain-cap"}[rng.IntN(8)]})
